@@ -405,6 +405,52 @@ func runC12(c *eng.Ctx, thorough bool) {
 		}
 	}
 
+	// ---------- C12.5b a token's inline policy is parsed in the token's own namespace (its relative
+	// paths must not be re-anchored to whichever namespace the request targets) — seed C12-b
+	c.Clause("R5", "C12.5")
+	nInline := 0
+	for _, f := range c.P.Funcs {
+		if !eng.InPkg(f, "vault") {
+			continue
+		}
+		for _, pc := range eng.Calls(f, `^policy\.ParseACLPolicy$`) {
+			a := pc.Common().Args
+			text := eng.ExprDeep(a[1])
+			if !strings.HasSuffix(text, ".InlinePolicy") {
+				continue
+			}
+			nInline++
+			base := strings.TrimSuffix(text, ".InlinePolicy")
+			site := "namespace an inline policy is parsed in"
+			okNS := true
+			var why []string
+			for _, o := range eng.Origins(a[0]) {
+				cl, isCall := o.Val.(*ssa.Extract)
+				if o.Kind != "call" || !strings.HasSuffix(o.Desc, "vault.(*Core).NamespaceByID#0") || !isCall {
+					okNS = false
+					why = append(why, o.Kind+":"+o.Desc)
+					continue
+				}
+				nb, _ := cl.Tuple.(*ssa.Call)
+				if nb == nil {
+					okNS = false
+					continue
+				}
+				id := eng.ExprDeep(nb.Call.Args[len(nb.Call.Args)-1])
+				if id != base+".NamespaceID" {
+					okNS = false
+					why = append(why, "NamespaceByID("+id+")")
+				}
+			}
+			if okNS {
+				c.OK(f, site, pc.Pos(), "NamespaceByID("+base+".NamespaceID)")
+			} else {
+				c.Violation(f, site, pc.Pos(), "the inline policy of "+base+" is parsed in a namespace that is not the token's own ("+strings.Join(why, ", ")+"): its relative paths are re-anchored to another namespace", nil)
+			}
+		}
+	}
+	c.Floor(nil, "inline policies parsed", nInline, 4)
+
 	// ---------- C12.6 namespace barrier selection
 	if f := c.Fn("vault.(*Core).NamespaceView"); f != nil {
 		c.Clause("R5", "C12.6")
